@@ -506,6 +506,8 @@ pub struct World {
     pub snap_stream: Option<u32>,
     pub oracle_matcher: Matcher,
     pub problems: Vec<(String, String, String)>,
+    /// a fill callback panicked on the current stream
+    pub has_hole: bool,
     pub case_id: String,
     pub trail: Vec<String>,
 }
@@ -551,6 +553,7 @@ impl World {
             frozen: None,
             snap_stream: None,
             problems: Vec::new(),
+            has_hole: false,
             case_id: seed_id,
             trail: Vec::new(),
         }
@@ -660,6 +663,40 @@ impl World {
         self.note(format!("extend reporting {reported} elements, yielding {real} (ids {first}..) via handle {k} (stream {stream})"));
     }
 
+    /// a push whose fill callback panics (the panic is caught by the caller): the index stays reserved, nothing is ever
+    /// published there, the item is destroyed by the unwinding
+    pub fn push_with_panicking_fill(&mut self, k: usize, extend_at: Option<usize>) {
+        let stream = self.handles[k].stream;
+        let n = extend_at.map_or(1, |at| at + 1 + 2) as u32;
+        let first = self.alloc_ids(n);
+        *self.invoked.lock().unwrap().entry(stream).or_insert(0) += n;
+        for i in first..first + n {
+            self.reg.exempt[i as usize].store(true, Ordering::Relaxed);
+        }
+        let inj = &self.handles[k].inj;
+        let reg = &self.reg;
+        let r = std::panic::catch_unwind(std::panic::AssertUnwindSafe(|| match extend_at {
+            None => {
+                inj.push(Payload::new(first, stream, reg), |_, _| panic!("fill callback panics on purpose"));
+            }
+            Some(at) => {
+                let items: Vec<Payload> = (first..first + n).map(|i| Payload::new(i, stream, reg)).collect();
+                inj.extend(items.into_iter(), |p, cols| {
+                    if p.id == first + at as u32 {
+                        panic!("fill callback panics on purpose");
+                    }
+                    fill_cols(p.id, cols)
+                });
+            }
+        }));
+        let published = extend_at.unwrap_or(0) as u32;
+        *self.completed.lock().unwrap().entry(stream).or_insert(0) += published;
+        if stream == self.cur {
+            self.has_hole = true;
+        }
+        self.note(format!("push/extend of {n} items (ids {first}..) whose fill callback panics at position {published}: caught={}", r.is_err()));
+    }
+
     pub fn edit(&mut self, col: usize, new_text: &str) {
         let (case, norm) = self.modes[col];
         self.edit_with(col, new_text, case, norm)
@@ -721,6 +758,7 @@ impl World {
         // injectors keep it reachable as far as the early-drop rule is concerned
         stream_handles_add(&self.reg, old, -1);
         self.n().restart(clear);
+        self.has_hole = false;
         self.cur += 1;
         stream_handles_add(&self.reg, self.cur, 1);
         self.note(format!("restart({clear}) stream {old} -> {}", self.cur));
@@ -1096,6 +1134,16 @@ impl World {
     /// drives the matcher to quiescence (bounded) and compares with the from-scratch result
     pub fn check_quiescent(&mut self, rep: &mut Report) -> bool {
         let mut quiet = false;
+        if self.has_hole {
+            // an index whose fill callback panicked stays reserved and unpublished for good: the matcher keeps reporting
+            // `running` (that is how it treats any unpublished index), so there is no quiescent state to compare; the
+            // snapshot checks of every tick still apply
+            for _ in 0..4 {
+                self.tick(30);
+            }
+            rep.count("c06.histories-with-a-permanently-unpublished-index");
+            return false;
+        }
         for _ in 0..200 {
             let st = self.tick(50);
             if !st.running {
@@ -1428,6 +1476,8 @@ pub fn run_random(opts: &Opts, rep: &mut Report, props: &[&str]) {
         let script_chars: Vec<char> = script.chars().collect();
         let mut typed = 0usize;
         let big = !opts.small && rng.chance(1, 6);
+        // one history in six contains fill callbacks that panic
+        let mut panics_left = if rng.chance(1, 6) { rng.range(1, 2) } else { 0 };
         w.new_injector();
         w.check_active_injectors("injector");
         let mut hsh = Hasher64::new();
@@ -1491,7 +1541,7 @@ pub fn run_random(opts: &Opts, rep: &mut Report, props: &[&str]) {
                     w.note("release held writer".into());
                     label = "release".into();
                 }
-                38..=57 => {
+                38..=56 => {
                     // pattern edit
                     let col = rng.below(cols);
                     let new_text: String = match rng.below(10) {
@@ -1530,6 +1580,14 @@ pub fn run_random(opts: &Opts, rep: &mut Report, props: &[&str]) {
                         w.edit(col, &new_text);
                     }
                     label = "edit".into();
+                }
+                57 if !w.handles.is_empty() && panics_left > 0 => {
+                    panics_left -= 1;
+                    let k = rng.below(w.handles.len());
+                    let at = if rng.coin() { None } else { Some(rng.below(3)) };
+                    w.push_with_panicking_fill(k, at);
+                    rep.count("pushes-whose-fill-callback-panicked");
+                    label = "panicking-fill".into();
                 }
                 58..=60 => {
                     // configuration "changed" to the same value, usually right after a tick that left a run behind
